@@ -263,7 +263,7 @@ type snapPolys [][][2]float64
 func init() {
 	required := []string{"judged_cases_with_outside_vertex", "outside_by_less_than_one_pixel", "control_all_inside"}
 	fw.Register(&fw.Prop{
-		ID: "C09", Cases: tierN(60000, 2000000),
+		ID: "C09", Cases: tierN(400000, 5000000),
 		Run: func(c *fw.Ctx) {
 			sc, why := genOutsideCase(c.Rng)
 			if sc == nil {
